@@ -263,9 +263,13 @@ def has_seg_ids_at_coords(
     missing = {}
     for coord, seg_id in zip(coords, seg_ids, strict=False):
         try:
-            scaled_coord = [int(c * s) for c, s in zip(coord, scale, strict=True)]
-            value = segmentation[tuple(scaled_coord)]
-        except IndexError:
+            scaled_coord = [c * s for c, s in zip(coord, scale, strict=True)]
+            if any(c < 0 for c in scaled_coord):
+                # numpy would wrap a negative index around to the end of the axis, and
+                # int() would truncate values in (-1, 0) to pixel 0
+                raise IndexError("negative coordinate")
+            value = segmentation[tuple(int(c) for c in scaled_coord)]
+        except (IndexError, OverflowError):
             errors.append(
                 f"Coords {coord} are out of bounds for segmentation data with shape"
                 f"{segmentation.shape} and scale factors {scale}"
